@@ -104,7 +104,7 @@ def rename_functions(case, rng):
                     if not y.get("at_end"):
                         ren[y["name"]] = names[len(ren) % len(names)]
                         break
-    for d in case["text"]:
+    for d in emodify.flat_of(case):
         for y in d["syms"]:
             y["name"] = ren.get(y["name"], y["name"])
         for ins in d.get("insns", []):
